@@ -870,7 +870,7 @@ def gen_cases(ctx, W, full, stride=1):
         # every length; for fields spanning TLV fragments a stride plus the lengths around the boundaries
         if n <= 160:
             return range(n)
-        return [k for k in range(n) if k % 16 == 0 or k < 3 or k >= n - 3 or abs(k % 255) <= 2 or k % 255 >= 253 or abs(k % 257) <= 2]
+        return [k for k in range(n) if k % 48 == 0 or k < 3 or k >= n - 3 or abs(k % 255) <= 2 or k % 255 >= 253 or abs(k % 257) <= 2]
 
     for field in ("spub", "enc", "id", "sig", "inner", "pd"):
         for n in trunc_points(L[field]):
@@ -1866,7 +1866,7 @@ def run(ctx):
         ctx.count("corpus")
     # 2. generated worlds
     # (identifier length, every bit of every field?, stride otherwise); 300: identifier and encrypted data span TLV fragments
-    plan = ([(17, True, 1), (36, False, 4), (1, False, 1), (300, False, 64)] if not ctx.thorough else
+    plan = ([(17, True, 1), (36, False, 16), (1, False, 16), (300, False, 128)] if not ctx.thorough else
             [(17, True, 1), (36, True, 1), (1, True, 1), (6, True, 1), (300, False, 8), (17, True, 1), (36, True, 1)])
     worlds = []
     for id_len, all_bits, stride in plan:
